@@ -29,6 +29,7 @@ fn main() {
     let out = Arc::new(Mutex::new(BufWriter::new(
         std::fs::File::create(&args[2]).expect("create results"),
     )));
+    let cur_path = format!("{}.cur", args[2]);
     let hang_secs: u64 = std::env::var("VERIF_HANG_SECS")
         .ok()
         .and_then(|s| s.parse().ok())
@@ -116,6 +117,9 @@ fn main() {
 
         CUR_IDX.store(idx, Ordering::SeqCst);
         TICKS.fetch_add(1, Ordering::SeqCst);
+        // which request is running: read by the parent if this process dies (stack overflow,
+        // abort) instead of panicking or hanging
+        let _ = std::fs::write(&cur_path, idx.to_string());
         let notx = req["notx"].as_bool().unwrap_or(false);
         // Two lexers (original and clone) may each run every action once.
         let budget = (r.chars.len() as i64 + 10) * if clone_at >= 0 { 2 } else { 1 };
